@@ -205,6 +205,7 @@ func init() {
 			k.PSoft = 0 // soft group content depends on field placement by design (C11)
 			k.PNamed, k.PGroupRes = 30, 25
 			k.PFresh = 85
+			k.PDefer, k.PCycleKeep = 25, 15 // cyclic graphs accepted under Defer: both encodings must meet the same verdicts
 			if rapid.IntRange(0, 99).Draw(t, "wrapmode") < 35 {
 				// order-preserving re-encodings on histories with failing
 				// functions: the same functions must run in both forms
@@ -282,7 +283,7 @@ func init() {
 			k := DefaultKnobs()
 			k.WScope = 5
 			k.PFresh = 88
-			k.WCycleCloser = 1
+			k.WCycleCloser = 3
 			k.PGroupParam, k.PGroupRes = 30, 30
 			c := GenCase(t, scale(k, thorough))
 			// draw a permutation key per op; blocks are sorted by it
